@@ -189,6 +189,19 @@ def run(ctx):
                 t["shapes"] = list(SHAPES)
                 t["shape_depth"] = 99 if th else 4
                 tasks.append(t)
+    # a Problem that returns a new value holder / leaves a 0-d array in it; bounds and parameters spelled differently;
+    # declared constraints: the failure is contained in the same way
+    for N in (1, 2):
+        for extra in (dict(holder="fresh"), dict(holder="zerod"), dict(spell="tuple"), dict(spell="npscalar"),
+                      dict(constraints=2, discrete=1)):
+            d = {1: 6, 2: 5}[N]
+            cfg = dict(N=N, r=2.0, box="B1", **extra)
+            plan.append(dict(cfg=cfg, alphabet="A013", depth=d))
+            for t in tree.tree_tasks(cfg, ALPHABETS["A013"], d, split=2):
+                t["excs"] = excs[:3]
+                t["shapes"] = []
+                t["shape_depth"] = 0
+                tasks.append(t)
     out = pmap(block, tasks)
     runs = nodes = 0
     for st, viol in out:
